@@ -249,7 +249,16 @@ pub fn gen(seed: u64, n: usize) -> Vec<Value> {
     for i in 0..n {
         let g = rng.random_bool(0.5);
         match i % 4 {
-            0 => out.push(json!({"kind": "clean", "s": rand_ws_text(&mut rng, 24, false), "g": g})),
+            0 => {
+                // a few texts change the byte width of their characters at every position, several hundred times
+                if i % 400 == 8 {
+                    let n = rng.random_range(300..=420);
+                    let s: String = (0..n).map(|k| if k % 7 == 6 { [" ", "\u{00A0}", "\u{3000}"][k % 3] } else if k % 2 == 0 { "a" } else { ["ä", "字", "e\u{0301}"][k % 3] }).collect();
+                    out.push(json!({"kind": "clean", "s": s, "g": g}));
+                } else {
+                    out.push(json!({"kind": "clean", "s": rand_ws_text(&mut rng, 24, false), "g": g}));
+                }
+            }
             1 => {
                 // two clean respacings of the same content
                 let base = rand_ws_text(&mut rng, 16, true);
